@@ -336,6 +336,11 @@ func H07Templates() {
 	known := string(w) == "alpha" || string(w) == "num" || string(w) == "first"
 	vndAssert((err == nil) == known, "only-documented-orders-accepted")
 	vndReach("h07:templates")
+	// the order may be written as a quoted word: same rule, and the empty word is no order
+	_, err = pp.Parse("k@\""+string(w)+"\"", filter)
+	vndAssert((err == nil) == known, "only-documented-orders-accepted")
+	_, err = pp.Parse("k@\"\"", filter)
+	vndAssert(err != nil, "only-documented-orders-accepted")
 	_, err = pp.Parse(".unit@"+string(w), filter)
 	vndAssert(err != nil, "dot-unit-projection-rejected-any-order")
 	_, err = pp.Parse("k@( )", filter)
